@@ -13,7 +13,7 @@ func init() {
 		},
 		outside:     "longer action words; MACD-RSI's combiner is checked over its real sub-strategies in C06 (its fields are concrete strategy types, so arbitrary words cannot be injected); stop-loss percentage outside [0,1)",
 		assumptions: append([]string{realModeNote, "closings are positive reals; stop-loss percentage in [0,1)", "oracle: vote / decorator models in harness/h/c07_c08.go"}, commonAssumptions...),
-		cases: func(tier string) []sym.CaseSpec {
+		cases: func(tier string, pr *prober) []sym.CaseSpec {
 			var out []sym.CaseSpec
 			maxK, maxN, decN, nestN := 3, 4, 5, 3
 			if tier == "thorough" {
@@ -61,7 +61,7 @@ func init() {
 		},
 		outside:     "longer streams (no inductive argument is attempted), non-positive values, floating-point rounding",
 		assumptions: append([]string{realModeNote, "values are positive reals", "oracle: portfolio(cash, units) model in harness/h/c07_c08.go"}, commonAssumptions...),
-		cases: func(tier string) []sym.CaseSpec {
+		cases: func(tier string, pr *prober) []sym.CaseSpec {
 			var out []sym.CaseSpec
 			maxN, d, normN := 8, 2, 9
 			if tier == "thorough" {
